@@ -5,7 +5,7 @@
 set -u
 export GOFLAGS=-mod=mod GOPROXY=off GOSUMDB=off GOTOOLCHAIN=local; unset GOWORK
 cd /repo || exit 1
-for f in /verif/mutants/*/*.diff /verif/seeded/*/patch.diff; do
+for f in /verif/mutants/*/*.diff /verif/seeded/*/patch.diff /verif/benign/*.diff; do
   git apply --check "$f" 2>/dev/null && continue
   tmp=$(mktemp -d /tmp/refresh-XXXXXX)
   rsync -a --exclude .git /repo/ "$tmp/"
